@@ -43,7 +43,8 @@ TRotate   == IsEvent("Rotate") /\ Rotate(Ev.route, Tup3(Ev.v)) /\ Logged
                  \* the rotated vector observed in the code, scaled to integers by the harness
               /\ Scale3(R[2], Tup3(Ev.out)) = Scale3(Ev.outden, MatVec(R[1], Tup3(Ev.v)))
 
-TraceNext == TMulRight \/ TMulLeft \/ TConj \/ TNeg \/ TConvert \/ TRotate
+TToQuat   == IsEvent("ToQuat") /\ ToQuat(Ev.route, Ev.disp) /\ Logged
+TraceNext == TToQuat \/ TMulRight \/ TMulLeft \/ TConj \/ TNeg \/ TConvert \/ TRotate
 TraceSpec == TraceInit /\ [][TraceNext]_tvars
 
 Progress == LET f == TLCGet(1) IN IF f[tid] < l THEN TLCSet(1, [f EXCEPT ![tid] = l]) ELSE TRUE
